@@ -22,7 +22,8 @@ from .. import tablefold as T
 
 PID = "C06"
 FORMS = {"lower": "abc_x", "mixed": "MiXed_Id", "upper": "UPPER_ID", "dq": '"My Col1"'.replace(" ", "_"), "bt": "`bt_name`", "br": "[br_name]", "dqU": '"QUOTED"',
-         "pre1": "collateral_id", "pre2": "Auto_Increment_step", "pre3": "autoincrement_no", "dq_kw": '"desc"', "bt_kw": "`Asc`", "br_kw": "[order]", "dq_kw2": '"Comment"'}
+         "pre1": "collateral_id", "pre2": "Auto_Increment_step", "pre3": "autoincrement_no", "dq_kw": '"desc"', "bt_kw": "`Asc`", "br_kw": "[order]", "dq_kw2": '"Comment"',
+         "hash_end": "emp#", "hash_in": "ix#1", "hash_start": "#tmp_orders", "br_hash": "[Order#]", "bt_hash": "`Line#2`"}
 
 
 def _file_with_settings(t):
@@ -116,6 +117,16 @@ KW_POS_ALTER = [("alter_drop_column", "CREATE TABLE t1 (a int, {X} int);\nALTER 
                 ("alter_unique_list", "CREATE TABLE t1 (a int, {X} int);\nALTER TABLE t1 ADD UNIQUE ({X});", lambda r: r[0]["alter"]["uniques"][0]["columns"][0])]
 
 
+# keyword-shaped schema / table / constraint names of an ALTER TABLE statement: every keyword, both letter cases.  The nine words below are
+# typed as keywords there by the pinned tree (the same recorded deviation as keyword-shaped COLUMN names in ALTER: KF-C06-alter-keyword-column)
+KW_POS_ALTER_NAMES = [
+    ("alter_schema_kw", "CREATE TABLE {X}.t1 (a int, b int);\nALTER TABLE {X}.t1 ADD UNIQUE (a);", lambda r: (r[0]["schema"], r[0]["alter"]["uniques"][0])[0]),
+    ("alter_table_kw", "CREATE TABLE s1.{X} (a int, b int);\nALTER TABLE s1.{X} ADD UNIQUE (a);", lambda r: (r[0]["table_name"], r[0]["alter"]["uniques"][0])[0]),
+    ("alter_table_noschema_kw", "CREATE TABLE {X} (a int, b int);\nALTER TABLE {X} ADD UNIQUE (a);", lambda r: (r[0]["table_name"], r[0]["alter"]["uniques"][0])[0]),
+    ("alter_constraint_kw", "CREATE TABLE t1 (a int, b int);\nALTER TABLE t1 ADD CONSTRAINT {X} UNIQUE (a);", lambda r: r[0]["alter"]["uniques"][0]["constraint_name"])]
+ALTER_NAME_DEV = {"AUTOINCREMENT", "AUTO_INCREMENT", "COLLATE", "COLUMN", "IF", "KEY", "MODIFY", "PRIMARY", "RENAME"}
+
+
 def strip_all(x):
     """what normalize_names=True must turn a normalize_names=False result into"""
     if isinstance(x, dict):
@@ -186,6 +197,8 @@ def run(tier, seed):
     tasks, meta = [], []
     for pid, tpl, ext in POSITIONS:
         for fid, form in FORMS.items():
+            if fid == "hash_start" and pid == "column_line_start":
+                continue        # a line that starts with `#` is a comment line
             ddl = tpl.replace("{X}", form) + "\n"
             tasks.append((ddl, {}, {}))
             tasks.append((ddl, {"normalize_names": True}, {}))
@@ -208,6 +221,14 @@ def run(tier, seed):
                 tasks.append((ddl, {}, {}))
                 tasks.append((ddl, {"normalize_names": True}, {}))
                 meta.append((pid, "keyword_prefix" + (":array_type_position" if pid == "inline_key_name" and form.startswith("ARRAY") else ""), form, ext, ddl))
+    for pid, tpl, ext in KW_POS_ALTER_NAMES:
+        for k in T.KEYWORDS:
+            for form in ((k, k.lower()) if thorough or k in ("ADD", "DROP", "DEFAULT", "LIKE", "CONSTRAINT", "FOREIGN", "INDEX", "UNIQUE", "CHECK", "WITH", "CLUSTER", "BY")
+                         else (rnd.choice((k, k.lower())),)):
+                ddl = tpl.replace("{X}", form) + "\n"
+                tasks.append((ddl, {}, {}))
+                tasks.append((ddl, {"normalize_names": True}, {}))
+                meta.append((pid, "keyword_in_alter" if k in ALTER_NAME_DEV else "keyword", form, ext, ddl))
     for pid, tpl, ext in KW_POS_ALTER:
         for k in kws:
             form = k.lower()
